@@ -119,8 +119,8 @@ structure Switch where
   pending : List Nat := []
   /-- received by `run`, mutex not yet taken -/
   held : Option Nat := none
-  /-- mutex held by `run`, blocked in `target <- msg` -/
-  inflight : Option (Nat × Target) := none
+  /-- mutex held by `run`, blocked in `target <- msg`; the `Bool` is a ghost: `s.diverted` as read under the mutex -/
+  inflight : Option (Nat × Target × Bool) := none
   /-- ghost: (error, target it was handed to, value of `diverted` when the mutex was taken) in delivery order -/
   delivered : List (Nat × Target × Bool) := []
 deriving DecidableEq, Repr
@@ -147,11 +147,11 @@ def Switch.step (s : Switch) : Act → Option Switch
     | _, _, _ => none
   | .lock =>
     match s.held, s.inflight with
-    | some e, none => some { s with held := none, inflight := some (e, s.target) }
+    | some e, none => some { s with held := none, inflight := some (e, s.target, s.diverted) }
     | _, _ => none
   | .deliver =>
     match s.inflight with
-    | some (e, t) => some { s with inflight := none, delivered := s.delivered ++ [(e, t, s.diverted)] }
+    | some x => some { s with inflight := none, delivered := s.delivered ++ [x] }
     | none => none
   | .divert c =>
     match s.inflight with
